@@ -153,6 +153,15 @@ impl Ctx {
                 return true;
             }
         }
+        // fast path (a broken tree can make hundreds of millions of inputs violate): this thread already knows a witness for the
+        // key that is at least as short - nothing to record, no lock taken
+        thread_local! {
+            static BEST: std::cell::RefCell<std::collections::HashMap<String, u64>> = std::cell::RefCell::new(std::collections::HashMap::new());
+        }
+        let skip = BEST.with(|b| b.borrow().get(key).map(|best| size >= *best).unwrap_or(false));
+        if skip {
+            return false;
+        }
         let mut v = self.violations.lock().unwrap();
         let better = match v.get(key) {
             Some(old) => size < old["size"].as_u64().unwrap_or(u64::MAX),
@@ -161,6 +170,12 @@ impl Ctx {
         if better {
             v.insert(key.to_string(), json!({"what": what(), "replay": replay(), "size": size}));
         }
+        let now = v.get(key).and_then(|o| o["size"].as_u64()).unwrap_or(0);
+        drop(v);
+        // (when the table of 50 keys is full and this key is not in it, remember size 0: nothing for this key will be kept)
+        BEST.with(|b| {
+            b.borrow_mut().insert(key.to_string(), now);
+        });
         false
     }
     pub fn n_violations(&self) -> usize {
